@@ -6,8 +6,11 @@ Line protocol for C10 (name-keyed access = positional access, whatever the looku
   chems <id>|<cas>|<n1>,<n2>,…  …      new CompiledChemicals           → ok name=pos … | err=…
   alias <c> <id> <alias>               set_alias                        → ok <pos> | err=…
   group <c> <name> <ids|-> <comp|->    define_group (molar composition) → ok <positions> | err=…
+  six <c>                              new SplitIndexer                 → ok
   cix <c> [<phase>]                    new single-phase indexer (phase l by default) → ok
   mix <c> <phases>                     new multi-phase indexer          → ok <sorted phases>
+  array|split <c> <key> <data>         chemicals.array / split (IDs, data)  → v:… | err=…
+  getm <ix> <key> / setm <ix> <key> <data>   indexer.by_mass()[key] (= …)  → as get / set (molar data shown)
   get <ix> <key>                       indexer[key]                     → s:… | v:… | m:… | err=…
   set <ix> <key> <data>                indexer[key] = data              → ok m:<all data> | err=…
   copylike <l> <r> / mixfrom <l> <r>   l.copy_like(r) / l.mix_from([l, r])  → ok <phase(s) of l> m:<all data of l> | err=…
@@ -20,7 +23,8 @@ open ThermoVerif.Chemicals ThermoVerif.Indexer ThermoVerif.IndexCache Driver
 
 abbrev St := World
 
-def parseLeaf (s : String) : Leaf := if s == "*" then .ell else .str s
+def parseLeaf (s : String) : Leaf :=
+  if s == "*" then .ell else if s == "@h" then .deep true else if s == "@u" then .deep false else .str s
 
 /-- split on commas that are outside brackets -/
 def splitTop (cs : List Char) : List String :=
@@ -61,6 +65,7 @@ def parseData (s : String) : Option Data :=
 def parseSpec (s : String) : Option Spec :=
   match splitOn1 s '|' with
   | [id, cas, names] => some { id := id, cas := cas, names := splitComma names }
+  | [id, cas, names, mw] => do some { id := id, cas := cas, names := splitComma names, mw := (← parseRat? mw) }
   | _ => none
 
 def dash (s : String) : String := if s == "-" then "" else s
@@ -71,12 +76,20 @@ def parseOp (line : String) : Option Op :=
   | ["alias", c, id, a] => do some (.alias (← c.toNat?) id a)
   | ["group", c, name, ids, comp] => do
     let comp ← if comp == "-" then some none else (parseRats comp).map some
-    some (.group (← c.toNat?) name (splitComma (dash ids)) comp)
+    some (.group (← c.toNat?) name (splitComma (dash ids)) comp false)
+  | ["group", c, name, ids, comp, "wt"] => do
+    let comp ← if comp == "-" then some none else (parseRats comp).map some
+    some (.group (← c.toNat?) name (splitComma (dash ids)) comp true)
+  | ["array", c, key, d] => do some (.array (← c.toNat?) false (← parseKey key) (← parseData d))
+  | ["split", c, key, d] => do some (.array (← c.toNat?) true (← parseKey key) (← parseData d))
+  | ["getm", i, key] => do some (.getMass (← i.toNat?) (← parseKey key))
+  | ["setm", i, key, d] => do some (.setMass (← i.toNat?) (← parseKey key) (← parseData d))
   | ["cix", c] => do some (.newChemIx (← c.toNat?) 'l')
   | ["cix", c, ph] => do
     match ph.toList with
     | [ch] => some (.newChemIx (← c.toNat?) ch)
     | _ => none
+  | ["six", c] => do some (.newSplitIx (← c.toNat?))
   | ["mix", c, ps] => do some (.newMatIx (← c.toNat?) (dash ps).toList)
   | ["get", i, key] => do some (.get (← i.toNat?) (← parseKey key))
   | ["set", i, key, d] => do some (.set (← i.toNat?) (← parseKey key) (← parseData d))
@@ -90,6 +103,9 @@ def showVal : Val → String
   | .scalar x => "s:" ++ showRat x
   | .vec xs => "v:" ++ showRats xs
   | .mat rows => "m:" ++ joinWith ";" (rows.map showRats)
+  | .nest items => "n:" ++ joinWith ";" (items.map fun it => match it with
+      | .inl x => showRat x
+      | .inr xs => "[" ++ showRats xs ++ "]")
 
 def showEnt : Ent → String
   | .pos i => toString i
